@@ -36,13 +36,13 @@ pub fn call(compress: bool, input: &[u8], cap: usize, place: Place) -> CallResul
     let mut out = Fenced::new(cap, place);
     out.fill(0xAB);
     let mut rs: u64 = SENTINEL;
-    let status = unsafe {
+    let status = crate::ctx::quiet(|| unsafe {
         if compress {
             preflate_rs::WrapperCompressZip(inp.ptr(), input.len() as u64, out.ptr(), cap as u64, &mut rs)
         } else {
             preflate_rs::WrapperDecompressZip(inp.ptr(), input.len() as u64, out.ptr(), cap as u64, &mut rs)
         }
-    };
+    });
     let n = if status == 0 && rs as usize <= cap { rs as usize } else { 0 };
     CallResult {
         status,
